@@ -21,12 +21,22 @@ def object_list(thorough):
         if seen_cls[cls] > (4 if thorough else 2):
             continue
         out.append((cls, obj))
-        k = 0
-        for desc, var in variants.variants(obj, rng, pool, per_field=3):
-            out.append((cls, var))
-            k += 1
-            if k >= (12 if thorough else 4):
+        # one variant per FIELD first (every field gets its turn: empty lists filled, optional values present), then more
+        allv = [(d, v) for d, v in variants.variants(obj, rng, pool, per_field=3) if not d.startswith(('assigned-after-observing', 'inplace'))]
+        picked, fields, taken = [], set(), set()
+        for i, (d, v) in enumerate(allv):
+            f = d.split('=')[0].split('.')[0]
+            if f not in fields:
+                fields.add(f)
+                taken.add(i)
+                picked.append((d, v))
+        for i, (d, v) in enumerate(allv):
+            if len(picked) >= (16 if thorough else 8):
                 break
+            if i not in taken:
+                picked.append((d, v))
+        for d, v in picked[:(16 if thorough else 8)]:
+            out.append((cls, v))
     return out
 
 
